@@ -271,6 +271,11 @@ UnaryFor(kind, sel, sd) ==
         [op |-> "getlist",   a |-> v3, is |-> <<0, 1>>],
         [op |-> "getlist",   a |-> v3, is |-> <<2, 0>>],
         [op |-> "getlist",   a |-> v3, is |-> <<1>>],
+        [op |-> "getlist",   a |-> v3, is |-> <<0, 1, 2>>],       \* written G[:] / G[-3:] by the driver
+        [op |-> "getlist",   a |-> v3, is |-> <<1, 2>>],          \* G[1:] / G[-2:]
+        [op |-> "getlist",   a |-> v3, is |-> <<2, 1, 0>>],       \* G[::-1]
+        [op |-> "getlist",   a |-> v2, is |-> <<0, 1>>],
+        [op |-> "getlist",   a |-> v2, is |-> <<1, 0>>],
         [op |-> "asnurbs",   a |-> s],
         [op |-> "asnurbs",   a |-> v2],
         [op |-> "asvector",  a |-> s],
